@@ -1,2 +1,87 @@
-From Burrow Require Import ClusterMod.
-Example placeholder_C11 : True. Proof. exact I. Qed.
+(* C11 — broker end offsets recorded are exactly what the brokers answered.
+   All statements: every list `l` of (metadata ticker fired?, environment) pairs, i.e. all layouts, all fault
+   patterns, any number of consecutive cycles of a fresh module; `en` ranges over the cycles of that run. *)
+From Coq Require Import ZArith List Bool.
+From Burrow Require Import ClusterMod ClusterModProofs.
+Import ListNotations.
+Open Scope Z_scope.
+
+Theorem C11_asked_exactly_leaders : forall l en,
+  In en (trace init_state None l) ->
+  (forall b t p, In (b, t, p) (co_asks (en_out en)) <->
+     exists ge ts ps, ghost_now en = Some ge /\ e_topics ge = Good ts /\ In t ts /\ e_parts ge t = Good ps
+       /\ In p ps /\ has_leader ge t p = true /\ e_leader (en_env en) t p = Good b)
+  /\ NoDup (co_asks (en_out en))
+  /\ (forall b b' t p, In (b, t, p) (co_asks (en_out en)) -> In (b', t, p) (co_asks (en_out en)) -> b = b').
+Proof. exact asked_exactly_leaders_run. Qed.
+
+Theorem C11_asked_exactly_leaders_refreshed : forall st e o ts,
+  wf st -> cycle st e = Done o -> refreshed st e = Some ts ->
+  forall b t p, In (b, t, p) (co_asks o) <->
+    In t ts /\ exists ps, e_parts e t = Good ps /\ In p ps /\ e_leader e t p = Good b.
+Proof. exact asked_exactly_leaders_refreshed. Qed.
+
+Theorem C11_leaderless_not_asked : forall l en b t p,
+  In en (trace init_state None l) -> e_leader (en_env en) t p = Fail -> ~ In (b, t, p) (co_asks (en_out en)).
+Proof. exact leaderless_not_asked. Qed.
+
+Theorem C11_answer_to_update : forall l en,
+  In en (trace init_state None l) ->
+  (forall t p off c, In (t, p, off, c) (co_updates (en_out en)) <->
+     exists b ans rest ge ps, In (b, t, p) (co_asks (en_out en)) /\ e_answer (en_env en) b = Good ans
+       /\ ans t p = (0, off :: rest)
+       /\ ghost_now en = Some ge /\ e_parts ge t = Good ps /\ c = Z.of_nat (length ps))
+  /\ NoDup (map upd_key (co_updates (en_out en))).
+Proof. exact answer_to_update_run. Qed.
+
+Theorem C11_fault_no_update : forall l en b t p,
+  In en (trace init_state None l) ->
+  (~ (exists b', In (b', t, p) (co_asks (en_out en))))
+  \/ (In (b, t, p) (co_asks (en_out en)) /\ e_answer (en_env en) b = Fail)
+  \/ (In (b, t, p) (co_asks (en_out en)) /\ exists ans, e_answer (en_env en) b = Good ans /\ fst (ans t p) <> 0) ->
+  forall off c, ~ In (t, p, off, c) (co_updates (en_out en)).
+Proof. exact fault_no_update_run. Qed.
+
+Theorem C11_error_sets_flag : forall st e o,
+  wf st -> cycle st e = Done o ->
+  (fetchMetadata (co_state o) = true <-> partition_error e o \/ unknown_leader e o).
+Proof. exact error_sets_flag. Qed.
+
+Theorem C11_error_forces_refresh : forall l l1 a b l2,
+  trace init_state None l = l1 ++ a :: b :: l2 ->
+  partition_error (en_env a) (en_out a) \/ unknown_leader (en_env a) (en_out a) ->
+  fetchMetadata (en_pre b) = true.
+Proof. exact error_forces_refresh. Qed.
+
+Theorem C11_count_bounds_partition : forall l en t p off c,
+  (forall x, In x l -> env_ids_ok (snd x)) ->
+  In en (trace init_state None l) ->
+  In (t, p, off, c) (co_updates (en_out en)) -> 0 <= p < c.
+Proof. exact count_bounds_partition. Qed.
+
+Theorem C11_no_crash : forall l st g,
+  (forall x, In x l -> env_offsets_ok (snd x)) -> length (trace st g l) = length l.
+Proof. exact no_crash. Qed.
+
+Theorem C11_run_entries : forall l en,
+  In en (trace init_state None l) ->
+  wf (en_pre en) /\ cycle (en_pre en) (en_env en) = Done (en_out en).
+Proof. exact run_entries. Qed.
+
+Theorem C11_run_is_trace : forall l st g,
+  exists tail,
+    run st l = map (fun en => (fetchMetadata (en_pre en), Done (en_out en))) (trace st g l) ++ tail
+    /\ (tail = [] \/ exists f, tail = [(f, Crash)]).
+Proof. exact run_is_trace. Qed.
+
+Print Assumptions C11_asked_exactly_leaders.
+Print Assumptions C11_asked_exactly_leaders_refreshed.
+Print Assumptions C11_leaderless_not_asked.
+Print Assumptions C11_answer_to_update.
+Print Assumptions C11_fault_no_update.
+Print Assumptions C11_error_sets_flag.
+Print Assumptions C11_error_forces_refresh.
+Print Assumptions C11_count_bounds_partition.
+Print Assumptions C11_no_crash.
+Print Assumptions C11_run_entries.
+Print Assumptions C11_run_is_trace.
